@@ -41,6 +41,11 @@ def make_cases(ctx):
     n = ctx.pick(4000, 60000)
     for i in range(n):
         yield "p%d" % i, {"i": i}
+    # the same negotiation started through the integration helper that the
+    # stdlib-client wrappers (HTTP, SMTP, POP3, IMAP, XML-RPC) share
+    for flav in ("cert", "srp", "anon", "cert_clientauth"):
+        for j in range(3):
+            yield "helper-%s-%d" % (flav, j), {"helper": [flav, j]}
     # full product of the features that a resumed connection has to carry
     # over: two connections each, the second offering the first's session
     for ver in pair.VERSIONS[:4]:
@@ -75,6 +80,106 @@ def peer_key_info(chain):
     if alg == "ecdsa":
         return ("ecdsa", 0, getattr(pk, "curve_name", None))
     return ("eddsa", 0, alg)
+
+
+HELPER_SETTINGS = [
+    dict(minVersion=(3, 1), maxVersion=(3, 2), cipherNames=["aes256"],
+         macNames=["sha"]),
+    dict(minVersion=(3, 3), maxVersion=(3, 3), cipherNames=["aes128gcm"]),
+    dict(minVersion=(3, 3), maxVersion=(3, 3), cipherNames=["aes128"],
+         macNames=["sha256", "sha"], useEncryptThenMAC=False),
+]
+
+
+def run_helper(ctx, cid, P):
+    """blocking client handshake via tlslite.integration.ClientHelper over a
+    socket pair, server in a thread (watchdog => inconclusive)"""
+    import socket as _socket
+    import threading
+    from tlslite.api import TLSConnection
+    from tlslite.integration.clienthelper import ClientHelper
+    from vt.pair import settings
+    flav, j = P["helper"]
+    kw = HELPER_SETTINGS[j]
+    cs = settings(**kw)
+    vcs = cs.validate()
+    for a in ("cipherNames", "macNames"):
+        setattr(vcs, a, list(getattr(cs, a)))
+    ss = settings(minVersion=(3, 0), maxVersion=(3, 3))
+    a, b = _socket.socketpair()
+    a.settimeout(20)
+    b.settimeout(20)
+    res = {}
+
+    def server():
+        conn = TLSConnection(b)
+        try:
+            skw = dict(settings=ss)
+            if flav == "srp":
+                skw["verifierDB"] = creds.verifier_db()
+            elif flav == "anon":
+                skw["anon"] = True
+            else:
+                ch, k = creds.server("rsa")
+                skw.update(certChain=ch, privateKey=k,
+                           reqCert=(flav == "cert_clientauth"))
+            conn.handshakeServer(**skw)
+            res["s"] = conn
+        except Exception as e:   # noqa
+            res["s_exc"] = e
+        finally:
+            try:
+                b.close()
+            except Exception:   # noqa
+                pass
+    th = threading.Thread(target=server, daemon=True)
+    th.start()
+    hk = dict(settings=cs)
+    if flav == "srp":
+        hk.update(username=creds.SRP_USER, password=creds.SRP_PASS)
+    elif flav == "anon":
+        hk.update(anon=True)
+    elif flav == "cert_clientauth":
+        ch, k = creds.client("rsa")
+        hk.update(certChain=ch, privateKey=k)
+    helper = ClientHelper(**hk)
+    conn = TLSConnection(a)
+    exc = None
+    try:
+        helper._handshake(conn)
+    except Exception as e:   # noqa
+        exc = e
+    th.join(30)
+    try:
+        a.close()
+    except Exception:   # noqa
+        pass
+    ctx.ev()
+    if th.is_alive():
+        ctx.inconc("helper handshake watchdog in %s" % cid)
+        return
+    fkey = {"flavour": flav, "entry": "ClientHelper"}
+    desc = {"case": cid, "settings": {k: str(v) for k, v in kw.items()},
+            "client_exc": repr(exc), "server_exc": repr(res.get("s_exc"))}
+    ctx.count("helper_handshakes")
+    if exc is not None or "s" not in res:
+        # restrictive settings may legitimately leave no common suite for a
+        # flavour (e.g. anon with GCM only): recorded
+        ctx.count("helper_failed")
+        ctx.cell("outcome", "helper|%s|%d|failed" % (flav, j))
+        return
+    su = suites.TABLE.get(conn.session.cipherSuite)
+    neg = {"version": tuple(conn.version), "suite": su,
+           "ems": conn.extendedMasterSecret}
+    for why in policy.within(vcs, neg, "client"):
+        ctx.violation(dict(fkey, clause="outside_policy", role="client",
+                           dim=why.split(" ")[0],
+                           ver=pair.VNAME[tuple(conn.version)]), desc, why)
+    if kw.get("useEncryptThenMAC") is False and conn.encryptThenMAC:
+        ctx.violation(dict(fkey, clause="outside_policy", role="client",
+                           dim="etm", ver=pair.VNAME[tuple(conn.version)]),
+                      desc, "encrypt-then-MAC negotiated although disabled")
+    ctx.cell("outcome", "helper|%s|%d|%s" % (flav, j, su.name if su else "?"))
 
 
 def run_dres(ctx, cid, P):
@@ -117,6 +222,8 @@ def run_dres(ctx, cid, P):
 def run_case(ctx, cid, P):
     if "dres" in P:
         return run_dres(ctx, cid, P)
+    if "helper" in P:
+        return run_helper(ctx, cid, P)
     rng = ctx.rng
     p_keep = rng.choice([0.3, 0.5, 0.7, 0.85])
     cd, cs = policy.gen_valid(rng, p_keep=p_keep)
